@@ -49,6 +49,17 @@ func cmdCheck(args []string) int {
 			e.workers, _ = strconv.Atoi(args[i])
 		case "-noaccel":
 			e.noAccel = true
+		case "-pin":
+			i++
+			e.pinChoices = map[string]uint64{}
+			for _, kv := range strings.Split(args[i], ",") {
+				if j := strings.Index(kv, "="); j > 0 {
+					v, _ := strconv.ParseUint(kv[j+1:], 10, 64)
+					e.pinChoices[kv[:j]] = v
+				}
+			}
+		case "-all":
+			e.earlyStop = false
 		case "-noguess":
 			e.noGuess = true
 		case "-noslice":
@@ -91,6 +102,8 @@ func cmdCheck(args []string) int {
 		fmt.Fprintln(os.Stderr, "no harness functions Verif"+prop+"_* found")
 		return 3
 	}
+	e.prop = prop
+	e.knownList = e.loadKnown()
 	fmt.Printf("symgo: property %s tier %s: %d harnesses, load+ssa %.1fs, %d workers\n", prop, e.tier, len(hs), loadT.Seconds(), e.workers)
 	e.runHarnesses(hs)
 
@@ -131,7 +144,13 @@ func cmdCheck(args []string) int {
 			continue
 		}
 		nviol++
-		path, confirmed := e.writeReplay(prop, v)
+		var path string
+		var confirmed bool
+		if c, done := e.confirmed[s]; done {
+			path, confirmed = c.path, c.ok
+		} else {
+			path, confirmed = e.writeReplay(prop, v)
+		}
 		if confirmed {
 			fmt.Printf("VIOLATION property=%s replay=%s\n", prop, path)
 			fmt.Printf("  harness=%s kind=%s at=%s %s\n", v.Harness, v.Kind, v.Label, v.Detail)
